@@ -47,7 +47,10 @@ def gen_case(rnd, tier: str, i: Any) -> Dict[str, Any]:
 
 def fixed_cases(tier: str):
     from hv import samples
-    return [dict(c, cfg={"mode": m, "mp": False, "inc_last": False}) for c in samples.sample_cases(tier) for m in ("parse", "load")]
+    out = [dict(c, cfg={"mode": m, "mp": False, "inc_last": False}) for c in samples.sample_cases(tier) for m in ("parse", "load")]
+    if tier == "thorough":
+        out = out + [{"files": {"rank0.json": gen_sim.huge_trace(21)}, "cfg": {"mode": "load", "mp": False, "inc_last": False, "parser": "default"}, "time_unit": 1}]          # row ids beyond int16
+    return out
 
 
 def run_case(case: Dict[str, Any], ctx: Any) -> core.CaseResult:
